@@ -89,7 +89,9 @@ def _make(kind, name, seed, scen):
     if kind == "pool":
         entry = ENTRIES[name]
         conc = pc.concretise(scen["sc"], entry, scen["dseed"])
-        qs = entry.make(seed, np.nan, (0, 1))
+        # random_state as an integer or as a RandomState instance (each twin gets its own instance in the
+        # same state; the strategy must work on a copy and leave the caller's instance alone)
+        qs = entry.make(np.random.RandomState(seed) if scen.get("rs_instance") else seed, np.nan, (0, 1))
 
         def call(h):
             kw = zoo.model_kwargs(entry, np.nan, (0, 1), seed=seed, variant=scen["variant"])
@@ -223,6 +225,7 @@ def main(tier="quick", seed=0):
     scheds = [s["sched"] for s in chk.generate("DetGen", "DetGen.cfg")]
     scheds = [s for s in scheds if any(a not in "AB" for a in s)]          # at least one global action
     scens = [s for s in chk.generate("PoolGen", "PoolGen.cfg") if s["n"] >= 3]
+    scens += pc.random_scenarios(rng, len(scens) // 2, 6, 12)
     subjects = []
     per = {1: 30, 2: 12, 3: 4} if quick else {1: 300, 2: 100, 3: 25}
     for e in ENTRIES.values():
@@ -230,7 +233,8 @@ def main(tier="quick", seed=0):
         for n_ in range(per[e.cost]):
             sc = pool[int(rng.integers(len(pool)))]
             subjects.append((("pool", e.name), {"sc": sc, "dseed": int(rng.integers(1000)), "variant": n_ % 2,
-                                                "tag": pc.scenario_tag(sc)}))
+                                                "rs_instance": bool(n_ % 3 == 2),
+                                                "tag": pc.scenario_tag(sc) + ("-rsinst" if n_ % 3 == 2 else "")}))
     reps = 10 if quick else 60
     for name in sorted(sc_.strategy_factories()):
         for _ in range(reps):
